@@ -177,7 +177,7 @@ def run(ctx):
         if key not in fails:
             fails[key] = C.Violation(key=key, what=what, replay={'oracle': oracle, 'input': inp})
 
-    npairs = 40 if q else 600
+    npairs = 40 if q else 400
     pairs = list(BOUNDARY_PAIRS)
     while len(pairs) < npairs:
         p = (rng.randint(-512, 511), rng.randint(-512, 511))
